@@ -87,7 +87,7 @@ PROVED = {
          'operator layer proved for all widths/values (P) except the documented a*b length (known finding); helpers / shifts / signed ops bounded per width (PB)'),
  'C07': ('P: contract on conditional._finalize (select-chain fold for ANY number of branches; wires, registers with default self, `defaults`, memory write ports) with loop invariants + exclusion lemma by induction, discharged by z3; then ',
          'fold of the branch lists proved for all branch counts (P); predicate construction and exclusion check bounded by tree enumeration (PB)'),
- 'C08': ('MemBlock._make_copy / RomBlock._make_copy attribute preservation also under contract; ', None),
+ 'C08': ('the port builders MemBlock._build_read_port and MemBlock._assignment (one well-formed m / @ net per port: memid = id, geometry, zero-extension, enable default 1, refusals) and MemBlock._make_copy / RomBlock._make_copy are also under contract; ', None),
  'C09': ('P: contracts on every rewrite rule of nand_synth / and_inverter_synth (one-bit wires: new logic computes the documented value using only the target gates; kept ops return truthy), discharged by z3; then ',
          'per-op rewrite rules proved (P); pass-level equivalence and structural postconditions bounded per design (PB)'),
  'C10': ('P: contract Block.sanity_check_net accepts exactly WF_net (DESIGN A.2) - 7465 obligations over (op, arity 0..4, 0..2 destinations, parameter shape) cases with symbolic bitwidths / wire kinds, discharged by z3; then ',
